@@ -11,6 +11,11 @@ def Valid (n : Nat) (s : St) : Prop := s.it < n ∧ s.iw.length = n ∧ pm1 s.iw
 theorem pm1_iff {l : List Int} : pm1 l = true ↔ ∀ x ∈ l, x = 1 ∨ x = -1 := by
   simp [pm1]
 
+theorem valid_init (n : Nat) (hn : 0 < n) : Valid n (St.init n) := by
+  refine ⟨hn, by simp [St.init], ?_⟩
+  rw [pm1_iff]; intro x hx
+  simp [St.init] at hx; exact Or.inl hx.2
+
 @[simp] theorem length_swap0 (l : List Int) (it : Nat) : (swap0 l it).length = l.length := by
   simp [swap0]
 theorem getElem?_swap0 (l : List Int) (it : Nat) (hit : it < l.length) (i : Nat) :
@@ -83,6 +88,12 @@ theorem node_facts {n d : Nat} (hn : 2 ≤ n ∧ n ≤ 5) (hd : d < 2^n) :
     · exact nodeOK4 d hd
     · exact nodeOK5 d hd
   simpa [nodeOK, and_assoc] using h
+
+/-- (1) `__CalculateNumbr` inverts `__CalculateNode`: for `d < 2^n`, with `(l, iu, iv) = node n d`,
+`numbr n iu = (d, l, iv)` -/
+theorem numbr_node {n d : Nat} (hn : 2 ≤ n ∧ n ≤ 5) (hd : d < 2^n) :
+    numbr n (node n d).2.1 = (d, (node n d).1, (node n d).2.2) :=
+  (node_facts hn hd).2.2.2.2.2
 
 theorem relabel_lt {n l it : Nat} (hl : l < n) (hit : it < n) (hn : 0 < n) : relabel l it < n := by
   unfold relabel; split
